@@ -463,6 +463,56 @@ def run(world, rep, tier, only=None):
                "%s is compared with e_len on the way to ext2fs_extent_insert() (%d test(s)), or in both collecting routines: %s" %
                (macro, len(at_write), at_merge))
 
+    # ------------------------------------------------------------------ C01.q an old /lost+found that was a directory always restarts the check
+    # e2fsck_get_lost_and_found() unlinks an unusable old /lost+found.  If it was a directory it is now unconnected, and
+    # only the restart gets it found and re-attached; pass 4 does not (its own `.` accounts for the adjusted link count).
+    # Behind the successful unlink every path that saw a directory sets E2F_FLAG_RESTART: nothing but the test of
+    # i_mode (and the unlink's error return) may lead past the store.
+    glf = prog.fn("e2fsck_get_lost_and_found", "e2fsck/pass3.c")
+    unl = calls_to(glf, "ext2fs_unlink")
+    rst = [n for n in glf.events("S") if (T.last_field(n.ev["lhs"]) or ("", ""))[1] == "flags" and
+           store_sets_bits(n, "E2F_FLAG_RESTART")]
+    rep.floor("C01.q unlink of the old lost+found", len(unl), 1)
+    rep.floor("C01.q restart requests in e2fsck_get_lost_and_found", len(rst), 1)
+
+    def q_edge(nn, si, m, _f=glf):
+        lit = _f.literal(nn.bid)
+        if not lit:
+            return True
+        a = resolve_local(_f, lit[0])
+        truth = lit[1] if si == 0 else (not lit[1])
+        if truth and "errcode" in T.field_names(a) | {x.split(".")[-1] for x in [T.path(a) or ""]}:
+            return False                                        # the unlink failed
+        if T.field_names(a) == {"i_mode"}:
+            return any(r in _f.reach([m]) for r in rst)         # the side that saw something else than a directory
+        return True
+    for i, u in enumerate(unl):
+        r = glf.reach(glf.after(u), avoid=rst, edge_ok=q_edge)
+        rep.ob("C01.q", site(glf, "a directory unlinked from the root restarts the check#%d" % i), glf.exit_node() not in r,
+               "behind ext2fs_unlink() (line %d) no path that saw a directory reaches the end without `flags |= E2F_FLAG_RESTART`" % u.line)
+
+    # ------------------------------------------------------------------ C01.r a directory e2fsck builds by hand is mapped the way the file system maps
+    # check_root() and e2fsck_get_lost_and_found() fill in a fresh inode themselves.  An inode with i_block[0] set to
+    # the block is a block-mapped one, which pass 1 rejects on a bigalloc file system: what e2fsck -fy built would not
+    # pass the next run.  The direct store is for file systems without extents only, and with extents the block is
+    # mapped through ext2fs_bmap2() (as ext2fs_mkdir() does).
+    n_r = 0
+    for f in prog.fns_in_file("e2fsck/pass3.c"):
+        for n in f.events("S"):
+            l = T.strip(n.ev["lhs"])
+            if not (isinstance(l, dict) and l.get("k") == "x" and (T.last_field(l.get("b")) or ("", ""))[1] == "i_block"):
+                continue
+            n_r += 1
+            g = [(t, resolve_local(f, a)) for t, a in control_lits(f, n)]
+            no_ext = any((not t) and any(c.get("fn") == "ext2fs_has_feature_extents" for c in T.calls(a)) for t, a in g)
+            mapped = [c for c in calls_to(f, "ext2fs_bmap2") if T.macros(arg(c, 4) or {}) & {"BMAP_SET"} and
+                      any(t and any(cc.get("fn") == "ext2fs_has_feature_extents" for cc in T.calls(resolve_local(f, a)))
+                          for t, a in control_lits(f, c))]
+            rep.ob("C01.r", site(f, "hand-made mapping only without extents#%d" % n_r), no_ext and bool(mapped),
+                   "`%s` (line %d) lies on the side without the extents feature, and with it the block is mapped by "
+                   "ext2fs_bmap2(BMAP_SET): %d call(s)" % (n.text()[:30], n.line, len(mapped)))
+    rep.floor("C01.r inodes built by hand in pass3.c", n_r, 2)
+
     # ------------------------------------------------------------------ C01.g bitmap checksum verification skipped only for a dirty own bitmap
     p5 = {f.name: f for f in prog.fns_in_file("e2fsck/pass5.c")}
     pass5 = p5.get("e2fsck_pass5")
